@@ -131,4 +131,9 @@ theorem Di.isolate_orphan (s : Store K E) (h : Mirror s) (u : K) :
     ∀ w, vals ((Di.isolate s u).1.get w).out u = [] ∧ vals ((Di.isolate s u).1.get w).inn u = [] :=
   Di.isolate_orphan' s h u
 
+/-- after an undirected `isolate` the node has degree 0 and no node lists it in either orientation -/
+theorem Un.isolate_orphan (s : Store K E) (h : Mirror s) (u : K) :
+    unAdj (Un.isolate s u).1 u = [] ∧ ∀ w, vals (unAdj (Un.isolate s u).1 w) u = [] :=
+  Un.isolate_orphan' s h u
+
 end G
